@@ -141,8 +141,10 @@ def doRun (st : State) (fs sg fl cr : String) (rest : List String := []) : State
       | none => "none"
       | some [] => "-"
       | some l => ",".intercalate ((sortBy keyLe l).map refStr)
+    let wStr := String.join (r.writes.map fun w => match w with | .tomb _ => "t" | .state _ => "s")
+    let wStr := if wStr == "" then "-" else wStr
     let pre := match cr with
-      | none => s!"res={outcomeStr r.outcome} pre={preStr} "
+      | none => s!"res={outcomeStr r.outcome} pre={preStr} w={wStr} "
       | some _ => ""
     ({ st with sys := sys' }, pre ++ obs sys')
   | _, _, _ => (st, "bad-op")
